@@ -433,7 +433,15 @@ var poolFolders = map[reflect.Type]func(reflect.Value) model.V{
 	reflect.TypeOf(FAnyList(nil)): func(rv reflect.Value) model.V { return model.Int(int64(rv.Len())) },
 }
 
+// poolFoldersErr: pool folders that can fail (they fold Go values themselves);
+// every type in here is also in poolFolders.
+var poolFoldersErr = map[reflect.Type]func(reflect.Value) (model.V, error){}
+
 func poolFold(rv reflect.Value) (model.V, bool, error) {
+	if f, ok := poolFoldersErr[rv.Type()]; ok {
+		v, err := f(rv)
+		return v, true, err
+	}
 	if f, ok := poolFolders[rv.Type()]; ok {
 		return f(rv), true, nil
 	}
@@ -441,17 +449,24 @@ func poolFold(rv reflect.Value) (model.V, bool, error) {
 }
 
 func init() {
-	poolFolders[reflect.TypeOf(FDeleg{})] = func(rv reflect.Value) model.V {
+	fdeleg := func(rv reflect.Value) (model.V, error) {
 		out := model.V{K: model.VObj, Struct: true, O: []model.Member{{Key: []byte("a"), Val: model.Int(rv.Field(0).Int())}}}
 		if !rv.Field(1).IsNil() {
 			m, err := foldV(rv.Field(1), 1)
-			if err == nil {
-				out.O = append(out.O, m.O...)
-				if len(m.O) > 1 {
-					out.Unordered = true
-				}
+			if err != nil {
+				// the delegated Fold fails, and FDeleg.Fold returns that error
+				return out, err
+			}
+			out.O = append(out.O, m.O...)
+			if len(m.O) > 1 {
+				out.Unordered = true
 			}
 		}
-		return out
+		return out, nil
+	}
+	poolFoldersErr[reflect.TypeOf(FDeleg{})] = fdeleg
+	poolFolders[reflect.TypeOf(FDeleg{})] = func(rv reflect.Value) model.V {
+		v, _ := fdeleg(rv)
+		return v
 	}
 }
